@@ -4,3 +4,5 @@ import ISnap.Model.Site
 import ISnap.Model.Table
 import ISnap.Model.Value
 import ISnap.Driver.SiteCmd
+import ISnap.Props.C06
+import ISnap.Props.C07
